@@ -95,6 +95,18 @@ func checkAccumulator(p *core.Program, r *core.Report, rule string, fd *core.Fun
 			if IsErrorReturn(p, w, fd.Obj, x, f) {
 				return
 			}
+			// `if err != nil || saturated { return res, err }`: left on an error OR on saturation
+			if n := len(x.Results); n > 0 && core.IsErrorType(info.TypeOf(x.Results[n-1])) {
+				var goal facts.Formula = facts.MkNot(facts.Atom("nil:" + w.Path(x.Results[n-1])))
+				goal = facts.MkOr(goal, facts.Atom("b:"+accPath()+".AllowAll"))
+				goal = facts.MkOr(goal, facts.Atom("b:"+accPath()+".IsAllConnections()"))
+				for _, v := range satFlags {
+					goal = facts.MkOr(goal, facts.Atom("b:"+w.PathOfVar(v)))
+				}
+				if facts.Entails(f, goal) {
+					return
+				}
+			}
 			if !saturated(f) {
 				bad = "the loop is left by the return at " + p.Pos(x.Pos()) + " although the accumulator is not saturated: later rules/policies are not added"
 			}
